@@ -1356,6 +1356,11 @@ where
     fn visit_mut_stmts(&mut self, stmts: &mut Vec<Stmt>) {
         #[cfg(feature = "verif-trace")]
         verif::emit("enter_stmts", &[("n", verif::V::N(stmts.len() as i64))]);
+        // declarations pending for an enclosing scope stay pending for that scope
+        let outer_consts = mem::take(&mut self.injecting_consts);
+        let outer_vars = mem::take(&mut self.injecting_vars);
+        let outer_slot_counter = mem::replace(&mut self.slot_counter, 1);
+
         stmts.visit_mut_children_with(self);
         #[cfg(feature = "verif-trace")]
         verif::emit(
@@ -1388,8 +1393,11 @@ where
                     ..Default::default()
                 }))),
             );
-            self.slot_counter = 1;
         }
+
+        self.injecting_consts = outer_consts;
+        self.injecting_vars = outer_vars;
+        self.slot_counter = outer_slot_counter;
     }
 
     fn visit_mut_arrow_expr(&mut self, arrow_expr: &mut ArrowExpr) {
@@ -1398,6 +1406,14 @@ where
             "enter_arrow",
             &[("block", verif::V::B(arrow_expr.body.is_block_stmt()))],
         );
+        let mut outer_consts = mem::take(&mut self.injecting_consts);
+        let mut outer_vars = mem::take(&mut self.injecting_vars);
+        let outer_slot_counter = self.slot_counter;
+        let has_expr_body = matches!(&*arrow_expr.body, BlockStmtOrExpr::Expr(..));
+        if has_expr_body {
+            self.slot_counter = 1;
+        }
+
         arrow_expr.visit_mut_children_with(self);
         #[cfg(feature = "verif-trace")]
         verif::emit(
@@ -1429,7 +1445,6 @@ where
                         decls: mem::take(&mut self.injecting_vars),
                         ..Default::default()
                     }))));
-                    self.slot_counter = 1;
                 }
 
                 stmts.push(Stmt::Return(ReturnStmt {
@@ -1444,6 +1459,16 @@ where
                 }));
             }
         }
+        if has_expr_body {
+            self.slot_counter = outer_slot_counter;
+        }
+
+        // whatever is still pending (generated in the parameters of a block-bodied arrow)
+        // belongs to the enclosing scope, like the declarations that were pending before
+        outer_consts.append(&mut self.injecting_consts);
+        outer_vars.append(&mut self.injecting_vars);
+        self.injecting_consts = outer_consts;
+        self.injecting_vars = outer_vars;
     }
 
     fn visit_mut_expr(&mut self, expr: &mut Expr) {
